@@ -22,23 +22,43 @@
 #ifndef VCAP
 #define VCAP 4
 #endif
-/* Typed capacity model of realloc: a growable array gets VCAP elements of the pointee type the
-   first time it is (re)allocated; later calls grow in place.  A block that is smaller than the
-   capacity (e.g. it came from calloc) is copied into a capacity block first.  Exceeding VCAP
-   elements is a reported bound, not a pass. */
+#ifdef CALLOC_N
+/* calloc with a run-time element count gets a block of constant capacity (CALLOC_N elements), so that
+   the size of the object is a constant for the symbolic execution (a symbolic object size makes
+   every later pointer into the array symbolic).  Over-allocation hides overruns of such arrays by
+   fewer than CALLOC_N elements; only harnesses that define CALLOC_N use this model. */
+static inline void *verif_calloc_ptrs(size_t n) {
+  __CPROVER_assert(n <= CALLOC_N, "bound: calloc element count within CALLOC_N");
+  __CPROVER_assume(n <= CALLOC_N);
+  void **p = malloc(CALLOC_N * sizeof(void *));
+  __CPROVER_assume(p != 0);
+  for (size_t i = 0; i < CALLOC_N; i++) p[i] = 0;
+  return p;
+}
+static inline void *verif_calloc_bytes(size_t n) {
+  __CPROVER_assert(n <= CALLOC_N * sizeof(void *), "bound: calloc size within CALLOC_N words");
+  __CPROVER_assume(n <= CALLOC_N * sizeof(void *));
+  char *p = malloc(CALLOC_N * sizeof(void *));
+  __CPROVER_assume(p != 0);
+  for (size_t i = 0; i < CALLOC_N * sizeof(void *); i++) p[i] = 0;
+  return p;
+}
+#define calloc(n, s) (__builtin_constant_p(n) ? (calloc)((n), (s)) : ((s) == sizeof(void *) ? verif_calloc_ptrs(n) : verif_calloc_bytes((n) * (s))))
+#endif
+/* Typed capacity model of realloc: every (re)allocation yields a fresh block of VCAP elements of the
+   pointee type; the old contents (as many elements as the old block holds) are copied and the old
+   block is freed.  The result pointer is therefore always a concrete fresh object (growing in place
+   when the old block "is large enough" made the result a symbolic pointer whenever the old size was
+   symbolic).  Exceeding VCAP elements is a reported bound, not a pass. */
 #define realloc(p, n) ({ __typeof__(p) verif_o = (p); size_t verif_n = (n); \
   __CPROVER_assert(verif_n <= VCAP * sizeof(*verif_o), "bound: realloc within VCAP elements"); \
   __CPROVER_assume(verif_n <= VCAP * sizeof(*verif_o)); \
-  __typeof__(p) verif_r; \
-  if (verif_o != 0 && __CPROVER_OBJECT_SIZE(verif_o) >= VCAP * sizeof(*verif_o)) verif_r = verif_o; \
-  else { \
-    verif_r = (__typeof__(p)) malloc(VCAP * sizeof(*verif_o)); \
-    __CPROVER_assume(verif_r != 0); \
-    if (verif_o != 0) { \
-      size_t verif_c = __CPROVER_OBJECT_SIZE(verif_o) / sizeof(*verif_o); \
-      for (size_t verif_i = 0; verif_i < VCAP; verif_i++) if (verif_i < verif_c) verif_r[verif_i] = verif_o[verif_i]; \
-      free(verif_o); \
-    } \
+  __typeof__(p) verif_r = (__typeof__(p)) malloc(VCAP * sizeof(*verif_o)); \
+  __CPROVER_assume(verif_r != 0); \
+  if (verif_o != 0) { \
+    size_t verif_c = __CPROVER_OBJECT_SIZE(verif_o) / sizeof(*verif_o); \
+    for (size_t verif_i = 0; verif_i < VCAP; verif_i++) if (verif_i < verif_c) verif_r[verif_i] = verif_o[verif_i]; \
+    free(verif_o); \
   } \
   verif_r; })
 #endif
